@@ -338,7 +338,18 @@ func (db *RockDB) DelKeys(keys ...[]byte) (int64, error) {
 	}
 
 	delCnt := int64(0)
+	var handled map[string]struct{}
+	if len(keys) > 1 {
+		handled = make(map[string]struct{}, len(keys))
+	}
 	for _, k := range keys {
+		if handled != nil {
+			// a key repeated in one call is deleted (and counted) once
+			if _, ok := handled[string(k)]; ok {
+				continue
+			}
+			handled[string(k)] = struct{}{}
+		}
 		c, _ := db.kvDel(k, db.wb)
 		delCnt += c
 	}
